@@ -161,6 +161,22 @@ pub fn dump_statics<'tcx>(tcx: TyCtxt<'tcx>) -> J {
     J::Arr(out)
 }
 
+/// local modules (their def paths): lets the consumer name items independently of the private module layout
+pub fn dump_modules<'tcx>(tcx: TyCtxt<'tcx>) -> J {
+    let mut out = Vec::new();
+    for ldid in tcx.hir_crate_items(()).definitions() {
+        let did = ldid.to_def_id();
+        if matches!(tcx.def_kind(did), DefKind::Mod) {
+            out.push(
+                J::obj()
+                    .set("path", J::s(def_str(tcx, did)))
+                    .set("vis", J::s(format!("{:?}", tcx.visibility(did)))),
+            );
+        }
+    }
+    J::Arr(out)
+}
+
 pub fn dump_impls<'tcx>(tcx: TyCtxt<'tcx>) -> J {
     let mut out = Vec::new();
     for ldid in tcx.hir_crate_items(()).definitions() {
